@@ -464,6 +464,19 @@ func genSeed(r *vh.Rng) Seed {
 	case "csv2", "fixedlength2", "edi":
 		cnt := 0
 		hs := genHier(r, 0, &cnt, format == "edi")
+		if r.Chance(0.06) {
+			// a deep chain: every level a record holding the next level (stack growth of the readers)
+			d := r.Between(6, 10)
+			if format == "edi" {
+				d = r.Between(6, 16)
+			}
+			var kid []*hnode
+			for i := d; i >= 1; i-- {
+				cnt++
+				kid = []*hnode{{name: fmt.Sprintf("D%d", i), min: 0, max: -1, ncols: 1, kids: kid}}
+			}
+			hs = kid
+		}
 		tgt := markTarget(r, hs)
 		fd := map[string]interface{}{}
 		var line func(h *hnode, kind string) string
